@@ -102,7 +102,8 @@ def make_config(rng, profile, tier):
         if rng.random() < 0.5:
             top = ['+', top, ['*', ['gascat', 1, rng.choice(ALTS)], ['var', 'x1']]]
     return {'sizes': sizes, 'cats': cats, 'top': top, 'helpers': helpers, 'nseg': nseg,
-            'max_seg': rng.choice([1, 2, 5]), 'data_seed': rng.randrange(1 << 30)}
+            'max_seg': rng.choice([1, 2, 5]), 'data_seed': rng.randrange(1 << 30),
+            'ctrl_style': rng.choice(['plain', 'plain', 'case'])}
 
 
 def make_ops(rng, cfg, profile, tier):
@@ -187,8 +188,11 @@ class Session:
         cfg = self.cfg
         self.beta_objs = {}
         self.var_objs = {}
-        self.ctrl_names = [f'k{i}' for i in range(len(cfg['sizes']))]
-        self.member_names = {f'k{i}': [f'm{j}' for j in range(s)] for i, s in enumerate(cfg['sizes'])}
+        # controller names: plain, or names that differ only by the case of their letters (legal, distinct names)
+        self._cn = ([f'k{i}' for i in range(len(cfg['sizes']))] if cfg.get('ctrl_style', 'plain') == 'plain'
+                    else ['Cost', 'cost', 'COST', 'cOst'][:len(cfg['sizes'])])
+        self.ctrl_names = list(self._cn)
+        self.member_names = {self._cn[i]: [f'm{j}' for j in range(s)] for i, s in enumerate(cfg['sizes'])}
         self.controllers = {nm: Controller(nm, self.member_names[nm]) for nm in self.ctrl_names}
         self.catalogs = {}
         self.values = {'b0': 0.7, 'b1': -1.3, 'b2': 0.45}
@@ -239,7 +243,7 @@ class Session:
         k = n[0]
         if k == 'cat':
             c = self.cfg['cats'][n[1]]
-            acc.add(f"k{c['ctrl']}")
+            acc.add(self._cn[c['ctrl']])
             for m in c['members']:
                 self._used(m, acc)
         elif k == 'segcat':
@@ -263,7 +267,7 @@ class Session:
             i = n[1]
             if i not in self.catalogs:
                 c = self.cfg['cats'][i]
-                cn = f"k{c['ctrl']}"
+                cn = self._cn[c['ctrl']]
                 named = [NamedExpression(name=mn, expression=self._build(m))
                          for mn, m in zip(self.member_names[cn], c['members'])]
                 self.catalogs[i] = Catalog(f'cat{i}', named, controlled_by=self.controllers[cn])
@@ -307,7 +311,7 @@ class Session:
         k = n[0]
         if k == 'cat':
             c = self.cfg['cats'][n[1]]
-            return self.hand(c['members'][model[f"k{c['ctrl']}"]], model)
+            return self.hand(c['members'][model[self._cn[c['ctrl']]]], model)
         if k == 'segcat':
             return self._seg_ast(f'hb{n[1]}', self.combos[model['segm']])
         if k == 'gascat':
@@ -343,7 +347,7 @@ class Session:
             ctx.fail('I16.state', f'after {after}: current configuration is [{cur}], the model says [{self.model_id()}]')
         for i, cat in self.catalogs.items():
             c = self.cfg['cats'][i]
-            cn = f"k{c['ctrl']}"
+            cn = self._cn[c['ctrl']]
             if cn in self.model:
                 want = self.member_names[cn][self.model[cn]]
                 if cat.selected_name() != want:
